@@ -62,7 +62,7 @@ def relational_models():
     from vt_dj import models as M
     if not _REL_READY:
         with connection.schema_editor() as ed:
-            for cls in (M.Person, M.Blog, M.Tag, M.Post, M.Comment):
+            for cls in (M.City, M.Person, M.Blog, M.Tag, M.Post, M.Comment):
                 ed.create_model(cls)
         _REL_READY = True
     return M
